@@ -50,7 +50,7 @@ M = [
   "\tif actual, loaded := m.m.Load(key); loaded {\n\t\treturn actual.(V), true\n\t}\n\tm.m.Store(key, value)\n\treturn value, false","LoadOrStore as Load followed by Store"),
  ("C20-m02","C20","container/factory/post_processor_registration_delegate.go",
   "\t\t\t\t\tmu.Lock()\n\t\t\t\t\terrs = append(errs, errors.WithMessage(err, name))\n\t\t\t\t\tmu.Unlock()",
-  "\t\t\t\t\terrs = append(errs, errors.WithMessage(err, name))","scan error list appended without the mutex"),
+  "\t\t\t\t\tmu.Lock()\n\t\t\t\t\tmu.Unlock()\n\t\t\t\t\terrs = append(errs, errors.WithMessage(err, name))","scan error list appended after the mutex was released"),
  ("C20-m03","C20","util/list/concurrent_set.go",
   "\tr.cm.Delete(s)\n}","\tif _, ok := r.cm.Load(s); ok {\n\t\tr.cm.Store(s, struct{}{})\n\t\tr.cm.Delete(s)\n\t}\n}","Remove writes before its last atomic step"),
  ("C16-m01","C16","util/el/el.go",
@@ -58,21 +58,21 @@ M = [
  ("C16-m02","C16","container/processors/config_quote_aware_post_processors.go",
   "\t\t\tif expVal == nil {\n\t\t\t\tuseDefaultValue = true\n\t\t\t} else if","\t\t\tif expVal != nil && len(spExp) == 2 {\n\t\t\t\tuseDefaultValue = true\n\t\t\t} else if","default wins over a configured value"),
  ("C13-m01","C13","app/app.go",
-  "\t\tif err != nil {\n\t\t\treturn errors.Wrapf(err, \"start runner %T failed\", runner)\n\t\t}","\t\t_ = err","runner error ignored, later runners still run"),
+  "\t\tif err != nil {\n\t\t\treturn errors.Wrapf(err, \"invoking Run() for runner '%T'\", runner)\n\t\t}","\t\t_ = err","runner error ignored, later runners still run"),
  ("C14-m01","C14","app/app.go",
   "\twg.Wait()\n","","Close returns without waiting"),
  ("C05-m01","C05","container/factory/post_processor_registration_delegate.go",
   "\terr = f.invokeInitMethods(name, wrappedComponent)\n\tif err != nil {\n\t\treturn nil, err\n\t}\n","","init methods never invoked"),
  ("C04-m01","C04","container/support/singleton_component_registry.go",
-  "\tr.singletonCurrentlyInCreation.Remove(name)","\t_ = name","creation mark never removed"),
+  "\tr.logger().Tracef(\"singleton '%s' finished creating\", name)\n\tr.singletonCurrentlyInCreation.Remove(name)","\tr.logger().Tracef(\"singleton '%s' finished creating\", name)","creation mark not removed after a successful creation"),
  ("C19-m01","C19","component_definition/arg.go",
-  "strings.ToUpper(string(argType[:1]))","strings.ToLower(string(argType[:1]))","argument names normalised to lower case first letter"),
+  "\treturn ArgType(strings.ToUpper(t[:1]) + t[1:])","\treturn ArgType(strings.ToUpper(t))","argument names upper-cased entirely"),
  ("C12-m01","C12","util/framework_helper/order_component.go",
-  "\treturn i.Order() < j.Order()","\treturn i.Order() <= j.Order()","comparator not strict"),
+  "\treturn any(i).(definition.Ordered).Order() < any(j).(definition.Ordered).Order()","\treturn any(i).(definition.Ordered).Order() <= any(j).(definition.Ordered).Order()","comparator not strict"),
  ("C15-m01","C15","configure/configure.go",
   "\tc.loaders = append(c.loaders, loaders...)","\tc.loaders = append(loaders, c.loaders...)","added loaders put in front of the earlier ones"),
  ("C07-m01","C07","container/support/singleton_registry.go",
-  "\tif _, ok := r.componentsMap.Load(name); ok {","\tif _, ok := r.componentsMap.Load(name); ok && false {","duplicate registration under one name accepted"),
+  "\tif exist, loaded := r.componentsMap.Load(name); loaded {","\tif exist, loaded := r.componentsMap.Load(name); loaded && false {","a second component under the same name replaces the first"),
  ("C08-m01","C08","component_definition/property.go",
   "\treturn !n.args.Has(ArgRequired, \"false\")","\treturn n.args.Has(ArgRequired, \"true\")","only an explicit required=true makes a point required"),
  ("C01-m01","C01","component_definition/property.go",
